@@ -44,7 +44,7 @@ def _list_ok(xs, lo, hi, mn, mx, noneable=False):
       continue
     if pg.MISSING_VALUE == e:
       return f'[{k}] is MISSING'
-    if isinstance(e, bool) or not isinstance(e, int):
+    if not isinstance(e, int):          # (bool is an int for pg.typing.Int, as in Python)
       return f'[{k}] is {type(e).__name__}'
     if lo is not None and e < lo:
       return f'[{k}] below min'
@@ -164,17 +164,17 @@ def _dict_ok(d, lo, hi, dflt, partial):
   if pg.MISSING_VALUE == a:
     if not partial:
       return 'required a is MISSING'
-  elif isinstance(a, bool) or not isinstance(a, int):
+  elif not isinstance(a, int):
     return f'a is {type(a).__name__}'
   elif (lo is not None and a < lo) or (hi is not None and a > hi):
     return 'a out of range'
   b = d.sym_getattr('b')
-  if b is not None and (isinstance(b, bool) or not isinstance(b, int)):
+  if b is not None and not isinstance(b, int):
     return f'b is {type(b).__name__}'
   for k in keys:
     if k not in ('a', 'b'):
       e = d.sym_getattr(k)
-      if isinstance(e, bool) or not isinstance(e, int) or e < 0:
+      if not isinstance(e, int) or e < 0:
         return f'dynamic value {k} invalid'
   return None
 
@@ -271,13 +271,15 @@ class Rec3(pg.Object):
   req: pgt.Int(max_value=100)
 
 
-def t_rec(v):
+def t_rec(v, single=False):
+  if single:
+    return pg.Dict(r=Rec3(x=v[0], tags=[v[1]], req=v[2], d=dict(k=v[3])))
   return pg.Dict(r=Rec3(x=v[0], tags=[v[1]], req=v[2], d=dict(k=v[3])), lst=pg.List([Rec3(req=v[2])]))
 
 
 def _rec_ok(r, partial=False):
   def is_int(z):
-    return isinstance(z, int) and not isinstance(z, bool)
+    return isinstance(z, int)          # bool is an int for pg.typing.Int, as in Python
   g = r.sym_getattr
   keys = list(r.sym_keys())
   declared = ['x', 'name', 'tags', 'opt', 'fz', 'e', 'sub', 'd', 'u', 't', 'req']
@@ -323,17 +325,23 @@ def _rec_ok(r, partial=False):
 def _tree_ok(root):
   for n in T.nodes_of(root):
     if isinstance(n, Rec3):
-      bad = _rec_ok(n)
+      bad = _rec_ok(n, partial=n.allow_partial)
       if bad:
         return f'{bad} at {n.sym_path}'
   return None
 
 
-VALS = ['int', 'str', 'none', 'list', 'list_long', 'dict', 'dict_bad', 'sub', 'missing', 'tuple', 'bool', 'float', 'rec']
+VALS = ['int', 'str', 'none', 'list', 'list_long', 'dict', 'dict_bad', 'sub', 'missing', 'tuple', 'bool', 'float', 'rec',
+        'typed_list', 'typed_list_empty', 'typed_dict', 'partial_d', 'partial_rec']
 
 
-def _mk(vk, w):
-  kind = VALS[_conc(vk, 0, len(VALS) - 1)]
+GROUPS = dict(scalar=['int', 'str', 'none', 'bool', 'float', 'missing'], container=['list', 'list_long', 'dict', 'dict_bad', 'tuple'],
+              object=['sub', 'rec', 'partial_rec'], typed=['typed_list', 'typed_list_empty', 'typed_dict', 'partial_d'])
+
+
+def _mk(vk, w, group=None):
+  names = GROUPS[group] if group else VALS
+  kind = names[_conc(vk, 0, len(names) - 1)]
   if kind == 'int':
     return kind, w
   if kind == 'str':
@@ -366,20 +374,33 @@ def _mk(vk, w):
       return kind, Rec3(req=w)
     except _REJ:
       raise Assume()
+  # containers that already carry their own (looser) value spec
+  if kind == 'typed_list':
+    if w < 0:
+      raise Assume()
+    return kind, pg.List([w], value_spec=pgt.List(pgt.Int(min_value=0)))
+  if kind == 'typed_list_empty':
+    return kind, pg.List([], value_spec=pgt.List(pgt.Int(min_value=0, max_value=5), max_size=3))
+  if kind == 'typed_dict':
+    return kind, pg.Dict(k=w, value_spec=pgt.Dict([('k', pgt.Int())]))
+  if kind == 'partial_d':
+    return kind, Rec3.partial(d={'y1': w}).d          # typed by the very same field spec, but partial
+  if kind == 'partial_rec':
+    return kind, Rec3.partial(x=1)
   raise AssertionError(kind)
 
 
 def h_obj(params, v0, v1, v2, v3, t, i, vk, w, w2):
   op = params['op']
   try:
-    root = t_rec((v0, v1, v2, v3))
+    root = t_rec((v0, v1, v2, v3), params.get('single', False))
   except _REJ:
     raise Assume()
   bad = _tree_ok(root)
   if bad:
     return Violation('obj:constructor_accepted_invalid_value', bad)
   nodes = T.nodes_of(root)
-  kind, val = _mk(vk, w)
+  kind, val = _mk(vk, w, params.get('group'))
   before = pg.to_json(root)
   raised = None
   try:
@@ -391,6 +412,8 @@ def h_obj(params, v0, v1, v2, v3, t, i, vk, w, w2):
     reach('obj.raised')
   bad = _tree_ok(root)
   if bad:
+    if kind == 'typed_list_empty' and bad.split(' ')[0] == 'tags' and not raised:
+      return Violation('obj:pretyped_list_shorter_than_min_size_accepted', f'{op} wrote {kind}: {bad}')
     return Violation(f'obj:{op}:violates_schema:{bad.split(" ")[0]}' + (':after_error' if raised else ''),
                      f'wrote {kind}: {bad}')
   if raised is not None and op not in ('extend', 'set_slice', 'rebind_multi', 'rebind_deep2', 'update') and pg.to_json(root) != before:
@@ -418,7 +441,9 @@ def shards(tier, seed):
   for op in TDICT_OPS:
     out.append(dict(name=f'tdict:{op}', fn='h_tdict', params=dict(op=op), args=_DA, budget_s=b, per_path_s=15))
   for op in OBJ_OPS:
-    out.append(dict(name=f'obj:{op}', fn='h_obj', params=dict(op=op), args=_OA, budget_s=b, per_path_s=15))
+    for group in GROUPS:
+      out.append(dict(name=f'obj:{op}:{group}', fn='h_obj', params=dict(op=op, group=group, single=quick and op != 'rebind_deep2'), args=_OA,
+                      budget_s=25 if quick else 400, per_path_s=15))
   return out
 
 
